@@ -1,7 +1,8 @@
 """C15 - penalty methods are zero on the feasible set and follow their formulas.
-Correspondence: real mystic.penalty stacks (all nine types, nesting 1-4, the adapters with_penalty / as_penalty and
-the combinators coupler.and_/or_/not_/additive) driven by random op sequences vs lean Model/Penalty (bit-exact;
-`log` of barrier_inequality and inexact python `sum` toleranced and counted separately).
+Correspondence: real mystic.penalty object TREES (all nine types, chains of 1-4 levels, the adapters with_penalty /
+as_penalty and the combinators coupler.and_/or_/not_/additive nested to depth 3 with LIVE member penalties) driven by
+random op sequences on any object of the tree vs lean Model/Penalty + Model/PenaltyTree (bit-exact; `log` of
+barrier_inequality and inexact python `sum` toleranced and counted separately).
 Monitor: the property itself (exact rational arithmetic on the documented formulas) on the implementation's results."""
 import sys, time, math, json, warnings, random as _random
 from fractions import Fraction
@@ -49,6 +50,34 @@ THEOREMS = [
     "MysticVerif.C15.barrier_not_zero_on_feasible_witness",
     "MysticVerif.C15.lagrange_inequality_negative_on_feasible_witness",
     "MysticVerif.C15.lagrange_equality_negative_on_violation_witness",
+    # penalty objects as trees (coupler.and_/or_/not_, live members), the operation state machine
+    "MysticVerif.C15.tree_eval",
+    "MysticVerif.C15.tree_error",
+    "MysticVerif.C15.tree_stacked_add",
+    "MysticVerif.C15.tree_iter_clear",
+    "MysticVerif.C15.tree_store",
+    "MysticVerif.C15.tree_op_reaches_object",
+    "MysticVerif.C15.tree_ops_touch_only_iteration_state",
+    "MysticVerif.C15.tree_iteration_history",
+    "MysticVerif.C15.iteration_history_handles",
+    "MysticVerif.C15.and_penalty",
+    "MysticVerif.C15.or_penalty",
+    "MysticVerif.C15.not_penalty",
+    "MysticVerif.C15.member_sign",
+    "MysticVerif.C15.valsL_spec",
+    "MysticVerif.C15.and_zero_iff",
+    "MysticVerif.C15.or_zero_iff",
+    # the multiplier state machine of the Lagrange types, the barrier's vanishing multiplier
+    "MysticVerif.C15.store_iter_cycle",
+    "MysticVerif.C15.lagrange_cycles",
+    "MysticVerif.C15.lagrange_equality_after_cycles",
+    "MysticVerif.C15.lagrange_equality_multiplier_update",
+    "MysticVerif.C15.lagrange_inequality_multiplier_update",
+    "MysticVerif.C15.barrier_zero_multiplier_raises",
+    # k = inf over the IEEE-shaped extended rationals
+    "MysticVerif.C15.infinite_k_uniform",
+    "MysticVerif.C15.infinite_k_quadratic_linear",
+    "MysticVerif.C15.infinite_k_nan_on_feasible_witness",
 ]
 
 TYPES = [("quadratic_equality", "qEq"), ("linear_equality", "lEq"), ("uniform_equality", "uEq"),
@@ -63,7 +92,13 @@ DEFAULT_K = {"qEq": 100, "lEq": 100, "uEq": math.inf, "uIneq": math.inf, "barrie
 INF = math.inf
 
 
-# ------------------------------------------------------------------ generators
+# ------------------------------------------------------------------ specs
+# A case is a penalty TREE (lean: Model/PenaltyTree.PT):
+#   node  = {"levels": [level, ...] (outermost first), "base": j}          j indexes ctx["fns"] (decorated function)
+#   level = {"t","k","h","mode","n","y","how","cond"}                       how: plain|with_penalty|as_penalty|and|or|not
+#   cond  = ("leaf", i) | ("and", [node..]) | ("or", [node..]) | ("not", t, member_node)   i indexes ctx["leaves"]
+#   leaf  = ("e", expr, target) | ("rnorm", con)
+# A path addresses an object of the tree: "d" = the decorated object, ("m", k) = member k of this level's condition.
 def gen_cond_expr(rng, dim, exact=False):
     """returns (expr, target) ; target = (i, a): the condition is exactly 0 where x[i] == a (or None)"""
     i = rng.randrange(dim)
@@ -92,27 +127,15 @@ def gen_kh(rng, t, exact=False):
     if exact:
         return float(rng.choice([1, 2, 0.5, 4])), float(rng.choice([1, 2, 5, 0.5])), "float"
     r = rng.random()
-    if r < 0.25:
+    if r < 0.22:
         return rng.choice([1, 2, 20, 100]), rng.choice([1, 2, 3, 5]), "int"
-    if r < 0.32:
+    if r < 0.29:
         return DEFAULT_K[t], 5, ("int" if DEFAULT_K[t] != INF else "float")
-    ks = [1.0, 2.0, 100.0, 20.0, 0.5, 1e-3, 0.0, INF, 1.0, 100.0]
-    hs = [5.0, 5.0, 1.0, 2.0, 0.5, 1.5, 0.0, INF, 3.7, 5.0]
+    ks = [1.0, 2.0, 100.0, 20.0, 0.5, 1e-3, 0.0, INF, 1.0, 100.0, -1.0, -100.0, INF]
+    hs = [5.0, 5.0, 1.0, 2.0, 0.5, 1.5, 0.0, INF, 3.7, 5.0, 1.0, 0.25, -2.0]
     k = rng.choice(ks) if rng.random() < 0.8 else rng.uniform(0.01, 50.0)
     h = rng.choice(hs) if rng.random() < 0.8 else rng.uniform(0.2, 6.0)
     return float(k), float(h), "float"
-
-
-def gen_level(rng, dim, exact=False, types=None):
-    name, tok = rng.choice(types or TYPES)
-    k, h, mode = gen_kh(rng, tok, exact)
-    e, target = gen_cond_expr(rng, dim, exact)
-    return {"t": tok, "k": k, "h": h, "mode": mode, "n": 0, "y": [], "cond": ("e", e), "target": target}
-
-
-def gen_plain_stack(rng, dim, depth, exact=False, types=None, zero_base=False):
-    return {"levels": [gen_level(rng, dim, exact, types) for _ in range(depth)],
-            "f": ("c", 0.0) if zero_base else (("c", dyadic(rng, -3, 3, 4)) if (exact or rng.random() < 0.3) else dsl.gen_expr(rng, dim, 2))}
 
 
 def gen_con(rng, dim):
@@ -136,59 +159,146 @@ def gen_con(rng, dim):
 
 
 NON_BARRIER = [t for t in TYPES if t[1] != "barrier"]
+ZERO_FN = ("c", 0.0)
 
 
-def gen_case(rng):
-    """a case = a stack spec (outermost level first; the innermost level possibly built by an adapter) + ops"""
-    dim = rng.randint(1, 4)
-    kind = rng.choice(["plain"] * 8 + ["with_penalty", "with_penalty", "as_penalty", "as_penalty", "and", "and", "or", "not", "not"])
-    exact = (kind == "and" and rng.random() < 0.8)
-    depth = rng.choice([1, 1, 2, 2, 3, 4]) if kind == "plain" else rng.choice([1, 1, 2, 3])
-    spec = gen_plain_stack(rng, dim, depth, exact)
-    spec["kind"] = kind
-    spec["dim"] = dim
-    spec["exact"] = exact
-    inner = spec["levels"][-1]
-    if kind != "plain":
-        spec["f"] = ("c", 0.0)
-    if kind == "as_penalty":
-        inner["cond"] = ("rnorm", gen_con(rng, dim)); inner["target"] = None
+def add_leaf(ctx, leaf):
+    ctx["leaves"].append(leaf)
+    return len(ctx["leaves"]) - 1
+
+
+def add_fn(ctx, e):
+    ctx["fns"].append(e)
+    return len(ctx["fns"]) - 1
+
+
+def gen_plain_level(rng, ctx, types=None, lagbias=False):
+    dim = ctx["dim"]; exact = ctx["exact"]
+    pool = types or TYPES
+    if lagbias:
+        pool = [t for t in pool if t[1] in LAG] or pool
+    name, tok = rng.choice(pool)
+    k, h, mode = gen_kh(rng, tok, exact)
+    e, target = gen_cond_expr(rng, dim, exact)
+    return {"t": tok, "k": k, "h": h, "mode": mode, "n": 0, "y": [], "how": "plain",
+            "cond": ("leaf", add_leaf(ctx, ("e", e, target)))}
+
+
+def gen_node(rng, ctx, kind, budget, no_barrier=False):
+    """one object: a chain of 1-4 levels; `kind` says how the innermost level is built"""
+    dim = ctx["dim"]; exact = ctx["exact"]
+    types = NON_BARRIER if (no_barrier or exact) else None
+    if kind == "plain":
+        depth = rng.choice([1, 1, 2, 2, 3, 4]) if budget >= 2 else rng.choice([1, 1, 2])
+    elif kind == "lagcycle":
+        depth = rng.choice([1, 1, 2])
+    else:
+        depth = rng.choice([1, 1, 2, 3]) if budget >= 2 else rng.choice([1, 1, 2])
+    levels = [gen_plain_level(rng, ctx, types, lagbias=(kind == "lagcycle" and (d == 0 or rng.random() < 0.5))) for d in range(depth)]
+    inner = levels[-1]
+    if kind in ("plain", "lagcycle"):
+        fe = ("c", dyadic(rng, -3, 3, 4)) if (exact or rng.random() < 0.3) else dsl.gen_expr(rng, dim, 2)
+        return {"levels": levels, "base": add_fn(ctx, fe)}
+    node = {"levels": levels, "base": add_fn(ctx, ZERO_FN)}
+    inner["how"] = kind
+    if kind == "with_penalty":
+        pass
+    elif kind == "as_penalty":
+        inner["cond"] = ("leaf", add_leaf(ctx, ("rnorm", gen_con(rng, dim))))
         if rng.random() < 0.3:
             inner["t"] = "qEq"; inner["default_ptype"] = True
     elif kind in ("and", "or"):
+        if types is not None and inner["t"] == "barrier":
+            inner["t"] = "lEq"
         m = rng.choice([0, 1, 2, 2, 3, 3]) if kind == "and" else rng.choice([1, 2, 2, 3])
-        members = []
-        for _ in range(m):
-            # a barrier member makes the combined condition a numpy scalar (numpy.log); stored in a lagrange_inequality
-            # multiplier it turns python's ZeroDivisionError into numpy's silent inf/nan: outside the model
-            ms = gen_plain_stack(rng, dim, rng.choice([1, 1, 2]), exact, types=NON_BARRIER if (exact or inner["t"] == "lagIneq") else None,
-                                 zero_base=rng.random() < 0.7)
-            ms["pre"] = gen_pre_ops(rng, dim, ms)
-            members.append(ms)
-        inner["cond"] = (kind, members); inner["target"] = None
-        r = rng.random()
-        if r < 0.35:      # all defaults: linear_equality, k=1, h=5
+        # a barrier member makes the combined condition a numpy scalar (numpy.log); stored in a lagrange_inequality
+        # multiplier it turns python's ZeroDivisionError into numpy's silent inf/nan: outside the model
+        nb = no_barrier or inner["t"] == "lagIneq"
+        inner["cond"] = (kind, [gen_member(rng, ctx, budget - 1, nb) for _ in range(m)])
+        if rng.random() < 0.35:      # all defaults: linear_equality, k=1, h=5
             inner.update(t="lEq", k=1, h=5, mode="int", defaults=True)
     elif kind == "not":
-        e = inner["cond"]
-        if rng.random() < 0.5:   # ptype taken from the member penalty, k=1, h = the type's default 5
-            inner.update(k=1, h=5, mode="int", defaults=True)
-        inner["cond"] = ("not", inner["t"], e)
-        inner["member_k"] = rng.choice([1, 100, 2.5])
-    spec["ops"] = gen_ops(rng, spec)
+        nb = no_barrier or inner["t"] == "lagIneq"
+        if budget >= 2 and rng.random() < 0.35:
+            member = gen_node(rng, ctx, rng.choice(["and", "or", "not", "and"]), budget - 1, nb)
+            member["levels"] = member["levels"][-1:]       # not_ only reads the .func of the object it is given
+        else:
+            mlv = gen_plain_level(rng, ctx, NON_BARRIER if nb else None)
+            mlv["k"] = rng.choice([1, 100, 2.5]); mlv["mode"] = "float"; mlv["h"] = 5.0
+            member = {"levels": [mlv], "base": add_fn(ctx, ZERO_FN)}
+        if rng.random() < 0.5:   # ptype taken from the member penalty's .ptype, k=1, h = the type's default 5
+            inner.update(t=member["levels"][0]["t"], k=1, h=5, mode="int", defaults=True)
+        if nb and inner["t"] == "barrier":
+            inner["t"] = "lIneq"; inner.pop("defaults", None)
+            inner.update(k=float(inner["k"]), h=float(inner["h"]), mode="float")
+        inner["cond"] = ("not", inner["t"], member)
+    return node
+
+
+def gen_member(rng, ctx, budget, no_barrier):
+    r = rng.random()
+    if budget >= 1 and r < 0.30:
+        kind = rng.choice(["and", "or", "not", "with_penalty", "as_penalty"])
+    else:
+        kind = "plain"
+    if kind == "as_penalty" and ctx["exact"]:
+        kind = "with_penalty"
+    node = gen_node(rng, ctx, kind, budget, no_barrier)
+    if kind == "plain" and rng.random() < 0.7:
+        ctx["fns"][node["base"]] = ZERO_FN
+    return node
+
+
+def gen_case(rng):
+    dim = rng.randint(1, 4)
+    kind = rng.choice(["plain"] * 7 + ["lagcycle", "lagcycle", "with_penalty", "with_penalty", "as_penalty", "as_penalty",
+                                       "and", "and", "and", "or", "or", "not", "not"])
+    exact = (kind in ("and", "or", "not") and rng.random() < 0.7) or (kind == "lagcycle" and rng.random() < 0.6)
+    ctx = {"dim": dim, "exact": exact, "leaves": [], "fns": []}
+    tree = gen_node(rng, ctx, kind, 2)
+    spec = {"kind": kind, "dim": dim, "exact": exact, "leaves": ctx["leaves"], "fns": ctx["fns"], "tree": tree}
+    spec["ops"] = gen_cycle_ops(rng, spec) if kind == "lagcycle" else gen_ops(rng, spec)
     return spec
 
 
-def targets_of(spec):
+def is_m(step):
+    return not isinstance(step, str)
+
+
+def cond_members(node, d):
+    """member objects of the condition of level d (through not_: the members of the member's own condition)"""
+    c = node["levels"][d]["cond"]
+    if c[0] in ("and", "or"):
+        return c[1]
+    if c[0] == "not":
+        return cond_members(c[2], 0)
+    return []
+
+
+def all_paths(node):
+    """every addressable object: [(path, node, depth)]"""
     out = []
-    for lv in spec["levels"]:
-        if lv.get("target"):
-            out.append(lv["target"])
-        c = lv["cond"]
-        if c[0] in ("and", "or"):
-            for m in c[1]:
-                out += targets_of(m)
+    for d in range(len(node["levels"])):
+        pd = ["d"] * d
+        out.append((pd, node, d))
+        for k, m in enumerate(cond_members(node, d)):
+            for (p, n2, d2) in all_paths(m):
+                out.append((pd + [("m", k)] + p, n2, d2))
     return out
+
+
+def all_levels(node):
+    """lean `allLevels`: own level, the members of its condition, then the decorated object"""
+    out = []
+    for d, lv in enumerate(node["levels"]):
+        out.append(lv)
+        for m in cond_members(node, d):
+            out += all_levels(m)
+    return out
+
+
+def leaf_targets(spec):
+    return [l[2] for l in spec["leaves"] if l[0] == "e" and l[2]]
 
 
 def gen_point(rng, dim, targets, exact=False, special=True):
@@ -219,144 +329,203 @@ def gen_point(rng, dim, targets, exact=False, special=True):
     return x
 
 
-def gen_pre_ops(rng, dim, ms):
-    """state set-up of a member penalty before it is combined: iter(i) and a few store calls"""
-    pre = []
-    if rng.random() < 0.5:
-        pre.append(("iterI", 0, rng.randint(0, 3)))
-    if any(l["t"] in LAG for l in ms["levels"]) and rng.random() < 0.7:
-        for _ in range(rng.randint(1, 3)):
-            pre.append(("storeI", 0, [dyadic(rng, -3, 3, 4) for _ in range(dim)], rng.randint(0, 3)))
-    return pre
+def int_mode_below(node, d):
+    return any(lv["mode"] == "int" for lv in node["levels"][d:])
+
+
+def gen_iter_index(rng, exact, intmode):
+    """iteration counts for iter(i): arbitrary python ints (in int mode k*h**i must stay below 2**53)"""
+    if exact:
+        return rng.randint(0, 3)
+    if intmode:
+        return rng.choice([0, 1, 2, 3, 5, 6, -1, -2])
+    r = rng.random()
+    if r < 0.7:
+        return rng.choice([0, 1, 2, 3, 5, -1, -2])
+    if r < 0.97:
+        return rng.choice([7, 10, 20, 50, -5, -20, 4, 8])
+    return rng.choice([400, -400, 1100])     # pow overflows (OverflowError: skipped) / underflows to 0
 
 
 def gen_ops(rng, spec):
-    dim = spec["dim"]; depth = len(spec["levels"]); exact = spec["exact"]
-    tg = targets_of(spec)
+    dim = spec["dim"]; exact = spec["exact"]
+    tg = leaf_targets(spec)
+    paths = all_paths(spec["tree"])
+    rootd = len(spec["tree"]["levels"])
+    rootpaths = [p for p in paths if not any(is_m(st) for st in p[0])]
+    lagpaths = [p for p in paths if p[1]["levels"][p[2]]["t"] in LAG]
     ops = []
-    nops = rng.randint(4, 12)
-    has_lag = any(l["t"] in LAG for l in spec["levels"])
-    special = spec["kind"] != "as_penalty"     # round(inf) inside a constraint raises OverflowError: outside the model
+    nops = rng.randint(4, 12) + (3 if len(paths) > rootd else 0)
+    has_lag = bool(lagpaths)
+    special = not any(l[0] == "rnorm" for l in spec["leaves"])   # round(inf) inside a constraint raises OverflowError: outside the model
     pts = [gen_point(rng, dim, tg, exact, special) for _ in range(3)]
     for _ in range(nops):
-        j = 0 if rng.random() < 0.7 else rng.randrange(depth)
+        r0 = rng.random()
+        if r0 < 0.55:
+            sel = paths[0]
+        elif r0 < 0.70:
+            sel = rng.choice(rootpaths)
+        else:
+            sel = rng.choice(paths)
         x = rng.choice(pts) if rng.random() < 0.4 else gen_point(rng, dim, tg, exact, special)
         r = rng.random()
         if has_lag and r >= 0.66 and r < 0.85 and rng.random() < 0.6:   # store / stored ops: aim at a Lagrange level
-            j = rng.choice([i for i, l in enumerate(spec["levels"]) if l["t"] in LAG])
+            sel = rng.choice(lagpaths)
+        p = list(sel[0])
         if r < 0.34:
-            ops.append(("call", j, x))
+            ops.append(("call", p, x))
         elif r < 0.46:
-            ops.append(("error", j, x))
+            ops.append(("error", p, x))
         elif r < 0.60:
-            ops.append(("iter", j))
+            ops.append(("iter", p))
         elif r < 0.66:
-            ops.append(("iterI", j, rng.choice([0, 1, 2, 3, 5, -1, -2]) if not exact else rng.randint(0, 3)))
+            ops.append(("iterI", p, gen_iter_index(rng, exact, int_mode_below(sel[1], sel[2]))))
         elif r < 0.76:
             if has_lag or rng.random() < 0.3:
                 if rng.random() < 0.5:
-                    ops.append(("store", j, x))
+                    ops.append(("store", p, x))
                 else:
-                    ops.append(("storeI", j, x, rng.choice([0, 1, 2, 3, 4, 6, -1, -2, -3])))
+                    ops.append(("storeI", p, x, rng.choice([0, 1, 2, 3, 4, 6, -1, -2, -3])))
             else:
-                ops.append(("call", j, x))
+                ops.append(("call", p, x))
         elif r < 0.80:
-            ops.append(("stored", j))
+            ops.append(("stored", p))
         elif r < 0.85:
-            ops.append(("storedI", j, rng.randint(-4, 7)))
+            ops.append(("storedI", p, rng.randint(-4, 7)))
         elif r < 0.90:
-            ops.append(("clear", j))
+            ops.append(("clear", p))
         elif r < 0.94:
-            ops.append(("iteration", j))
+            ops.append(("iteration", p))
         else:
-            ops.append(("additive", j, x, dsl.gen_expr(rng, dim, 1)))
-    ops.append(("call", 0, rng.choice(pts)))
+            ops.append(("additive", p, x, dsl.gen_expr(rng, dim, 1)))
+    ops.append(("call", [], rng.choice(pts)))
+    return ops
+
+
+def gen_cycle_ops(rng, spec):
+    """the augmented-Lagrangian outer loop as mystic runs it: evaluate, store(x_i), iter(), ... for several cycles,
+    with an occasional overwrite store(x, i), a stored(i) read and a final clear()"""
+    dim = spec["dim"]; exact = spec["exact"]
+    tg = leaf_targets(spec)
+    ops = []
+    ncyc = rng.randint(2, 7)
+    probe = gen_point(rng, dim, tg, exact, False)
+    for c in range(ncyc):
+        x = gen_point(rng, dim, tg, exact, False)
+        ops.append(("call", [], x))
+        ops.append(("store", [], x))
+        if rng.random() < 0.25:
+            ops.append(("storeI", [], gen_point(rng, dim, tg, exact, False), rng.randint(0, c)))
+        ops.append(("iter", []))
+        ops.append(("call", [], probe))
+        if rng.random() < 0.3:
+            ops.append(("storedI", [], rng.randint(-2, c + 2)))
+        if rng.random() < 0.2:
+            ops.append(("stored", []))
+    ops.append(("error", [], probe))
+    if rng.random() < 0.5:
+        ops.append(("clear", []))
+        ops.append(("call", [], probe))
     return ops
 
 
 # ------------------------------------------------------------------ the real objects
-class ZD(Exception):
-    pass
-
-
-def cond_callable(c):
-    if c[0] == "e":
-        e = c[1]
-        return lambda x: dsl.ev(e, x)
-    raise AssertionError(c)
-
-
 def num(v, mode):
     return int(v) if mode == "int" else float(v)
 
 
-def build_stack(spec, probes=None):
-    """returns (handles outermost first, base callable).  `probes`, if given, collects the base-call count."""
-    from mystic import penalty as P, coupler, constraints as C
-    fe = spec["f"]
-    ncalls = [0]
+class Built(object):
+    """the real objects of one node: handles[d] = the penalty object of level d (outermost first)"""
+    def __init__(self, node):
+        self.node = node
+        self.handles = []
+        self.members = []      # per level: [Built] of its condition's members (as cond_members)
+        self.base = None
 
-    def base(x):
-        ncalls[0] += 1
-        return dsl.ev(fe, x)
+
+def leaf_callable(leaf):
+    if leaf[0] == "e":
+        e = leaf[1]
+        return lambda x: dsl.ev(e, x)
+    con = leaf[1]
+    return lambda x: dsl.con_apply(con, x)
+
+
+def built_members(b, d):
+    return b.members[d]
+
+
+def build_node(spec, node):
+    from mystic import penalty as P, coupler, constraints as C
+    b = Built(node)
+    fe = spec["fns"][node["base"]]
+    base = lambda x: dsl.ev(fe, x)
+    b.base = base
     g = base
-    handles = []
-    levels = spec["levels"]
+    levels = node["levels"]
+    b.members = [[] for _ in levels]
     for idx in range(len(levels) - 1, -1, -1):
         lv = levels[idx]
         name = [n for n, t in TYPES if t == lv["t"]][0]
         ptype = getattr(P, name)
         k = num(lv["k"], lv["mode"]); h = num(lv["h"], lv["mode"])
         c = lv["cond"]
-        innermost = (idx == len(levels) - 1)
-        kind = spec.get("kind", "plain") if innermost else "plain"
-        if kind == "plain":
-            g = ptype(cond_callable(c), k=k, h=h)(g)
-        elif kind == "with_penalty":
-            cf = cond_callable(c)
+        how = lv["how"]
+        if how != "plain":
+            assert idx == len(levels) - 1 and list(fe) == ["c", 0.0]
+        if how == "plain":
+            g = ptype(leaf_callable(spec["leaves"][c[1]]), k=k, h=h)(g)
+        elif how == "with_penalty":
+            cf = leaf_callable(spec["leaves"][c[1]])
             g = C.with_penalty(ptype, k=k, h=h)(cf)
             assert g.func is cf and g.ptype == name
-        elif kind == "as_penalty":
-            con = c[1]
-            cf = lambda x, con=con: dsl.con_apply(con, x)
+        elif how == "as_penalty":
+            cf = leaf_callable(spec["leaves"][c[1]])
             if lv.get("default_ptype"):
                 g = C.as_penalty(cf, k=k, h=h)
             else:
                 g = C.as_penalty(cf, ptype, k=k, h=h)
             assert g.ptype == name
-        elif kind in ("and", "or"):
-            members = []
-            for ms in c[1]:
-                hs, _ = build_stack(ms)
-                run_pre(hs, ms)
-                members.append(hs[0])
-            comb = coupler.and_ if kind == "and" else coupler.or_
+        elif how in ("and", "or"):
+            mbs = [build_node(spec, m) for m in c[1]]
+            comb = coupler.and_ if how == "and" else coupler.or_
             if lv.get("defaults"):
-                g = comb(*members)
+                g = comb(*[mb.handles[0] for mb in mbs])
             else:
-                g = comb(*members, ptype=ptype, k=k, h=h)
-        elif kind == "not":
-            member = ptype(cond_callable(c[2]), k=lv["member_k"])(lambda x: 0.0)
+                g = comb(*[mb.handles[0] for mb in mbs], ptype=ptype, k=k, h=h)
+            b.members[idx] = mbs
+        elif how == "not":
+            mb = build_node(spec, c[2])
             if lv.get("defaults"):
-                g = coupler.not_(member)
+                g = coupler.not_(mb.handles[0])
             else:
-                g = coupler.not_(member, ptype=ptype, k=k, h=h)
-        handles.insert(0, g)
-    if probes is not None:
-        probes.append(ncalls)
-    return handles, base
+                g = coupler.not_(mb.handles[0], ptype=ptype, k=k, h=h)
+            assert g.ptype == name, (g.ptype, name)
+            b.members[idx] = mb.members[0]
+        else:
+            raise AssertionError(how)
+        b.handles.insert(0, g)
+    return b
 
 
-def run_pre(handles, ms):
-    """apply the member's set-up ops and write the resulting state (n, y per level) back into its spec"""
-    for op in ms.get("pre", []):
-        if op[0] == "iterI":
-            handles[op[1]].iter(op[2])
-        elif op[0] == "storeI":
-            handles[op[1]].store(list(op[2]), op[3])
-    for lv, hdl in zip(ms["levels"], handles):
-        lv["n"] = hdl.iteration()
-        lv["y"] = [float(v) for v in hdl.stored()]
+def resolve(b, path):
+    d = 0
+    for st in path:
+        if is_m(st):
+            b = b.members[d][st[1]]; d = 0
+        else:
+            d += 1
+    return b, d
+
+
+def all_built(b):
+    """[(Built, depth)] in the order of lean `allLevels`"""
+    out = []
+    for d in range(len(b.handles)):
+        out.append((b, d))
+        for m in b.members[d]:
+            out += all_built(m)
+    return out
 
 
 def guarded(fn):
@@ -372,62 +541,179 @@ def guarded(fn):
         return ("raise", "other:" + type(exc).__name__ + ":" + str(exc)[:80])
 
 
-def state_of(handles):
-    return [(h.iteration(), [float(v) for v in h.stored()]) for h in handles]
+def state_of(root):
+    return [(bb.handles[d].iteration(), [float(v) for v in bb.handles[d].stored()]) for bb, d in all_built(root)]
+
+
+def chain_state(b, d):
+    return [(h.iteration(), [float(v) for v in h.stored()]) for h in b.handles[d:]]
+
+
+def leaf_value(spec, i, x):
+    """the user's condition number i at x, recomputed here: float | 'zd' """
+    leaf = spec["leaves"][i]
+    try:
+        if leaf[0] == "e":
+            return dsl.ev(leaf[1], x)
+        cx = dsl.con_apply(leaf[1], x)
+        return math.sqrt(math.fsum((p - q) ** 2 for p, q in zip(cx, x)))
+    except ZeroDivisionError:
+        return "zd"
+
+
+def live_values(mbs, x):
+    """values of live member objects at x (evaluation has no side effects); None if one raises / is nan"""
+    vals = []
+    for mb in mbs:
+        r = guarded(lambda: float(mb.handles[0](list(x))))
+        if r[0] != "v":
+            return None
+        vals.append(r[1])
+    return vals
+
+
+def cond_value(spec, b, d, x, c=None, mbs=None):
+    """value of the condition of level d of b at x, from the DOCUMENTED meaning of the combinators (and_ = sum of
+    the member penalties, or_ = their minimum, not_ = negation / logical not of the member's condition) applied to
+    the live members' values: float | 'zd' | None (unknown)"""
+    lv = b.node["levels"][d]
+    if c is None:
+        c = lv["cond"]; mbs = b.members[d]
+    if c[0] == "leaf":
+        return leaf_value(spec, c[1], x)
+    if c[0] in ("and", "or"):
+        vals = live_values(mbs, x)
+        if vals is None:
+            return "zd" if any(guarded(lambda mb=mb: float(mb.handles[0](list(x))))[1] == "zerodiv" for mb in mbs) else None
+        if any(v != v for v in vals) or (INF in vals and -INF in vals):
+            return None
+        return float(math.fsum(vals)) if c[0] == "and" else min(vals)
+    if c[0] == "not":
+        inner_lv = c[2]["levels"][0]
+        v = cond_value(spec, b, d, x, inner_lv["cond"], mbs)
+        if v is None or v == "zd":
+            return v
+        return float(not v) if c[1] in EQ else 0 - v
+    return None
+
+
+def walk_conds(b, d0=0):
+    """every (cond, member Builts) reachable below level d0 of b, nested members included"""
+    for d in range(d0, len(b.handles)):
+        c = b.node["levels"][d]["cond"]
+        yield b.node["levels"][d], c, b.members[d]
+        while c[0] == "not":
+            c = c[2]["levels"][0]["cond"]
+            yield None, c, b.members[d]
+        for m in b.members[d]:
+            for it in walk_conds(m, 0):
+                yield it
+
+
+def cond_tol(spec, c, mbs, x):
+    """(log, sum, hazard) of one condition value"""
+    if c[0] == "leaf":
+        return False, False, False
+    if c[0] == "not":
+        lg, sm, hz = cond_tol(spec, c[2]["levels"][0]["cond"], mbs, x)
+        return lg, sm, hz or ((lg or sm) and c[1] in EQ)
+    lg = sm = hz = False
+    for mb in mbs:
+        l2, s2, h2 = tol_class(spec, mb, 0, x)
+        lg = lg or l2; sm = sm or s2; hz = hz or h2
+    if c[0] == "and":
+        vals = live_values(mbs, x)
+        if vals is not None and all(math.isfinite(v) for v in vals):
+            acc = Fraction(0)
+            for v in vals:
+                acc += Fraction(v)
+                if Fraction(float(acc)) != acc:
+                    sm = True
+                    break
+    return lg, sm, hz
+
+
+def tol_class(spec, b, d, x):
+    """(log, sum, hazard) of the value of the object b from level d on: numpy.log is involved; a python sum() whose
+    naive left fold is inexact is involved (python's builtin sum is compensated: exact comparison only when every
+    partial sum of the fold is representable); such a rounded value reaches a discontinuous consumer (the condition of
+    a uniform / barrier level, a logical not), where a last-bit difference could select the other branch"""
+    lg = sm = hz = False
+    for dd in range(d, len(b.handles)):
+        lv = b.node["levels"][dd]
+        l2, s2, h2 = cond_tol(spec, lv["cond"], b.members[dd], x)
+        hz = hz or h2 or ((l2 or s2) and lv["t"] in ("uEq", "uIneq", "barrier"))
+        lg = lg or l2 or lv["t"] == "barrier"; sm = sm or s2
+    return lg, sm, hz
+
+
+def members_log(b, d):
+    """error(x) never calls log itself; it depends on it only through and_/or_ member penalties"""
+    for lv, c, mbs in walk_conds(b, d):
+        for m in mbs:
+            if any(l["t"] == "barrier" for l in all_levels(m.node)):
+                return True
+    return False
 
 
 def run_impl(spec):
-    """run the op list on the real penalty objects; returns (handles, observations)"""
+    """run the op list on the real penalty objects; returns (root Built, observations)"""
     from mystic import coupler
-    handles, base = build_stack(spec)
+    root = build_node(spec, spec["tree"])
     obs = []
     for op in spec["ops"]:
-        kind, j = op[0], op[1]
-        hd = handles[j]
+        kind, path = op[0], op[1]
+        b, d = resolve(root, path)
+        hd = b.handles[d]
         if kind == "call":
-            r = guarded(lambda: float(hd(list(op[2]))))
+            x = list(op[2])
+            r = guarded(lambda: float(hd(list(x))))
             deeper = []
             if r[0] == "v":   # the decorated functions' own values (monitor: stacked_add, zero/positive)
-                for jj in range(j + 1, len(handles)):
-                    deeper.append(guarded(lambda jj=jj: float(handles[jj](list(op[2])))))
-                deeper.append(guarded(lambda: float(base(list(op[2])))))
-            obs.append({"op": kind, "r": r, "deeper": deeper, "state": state_of(handles)})
+                for dd in range(d + 1, len(b.handles)):
+                    deeper.append(guarded(lambda dd=dd: float(b.handles[dd](list(x)))))
+                deeper.append(guarded(lambda: float(b.base(list(x)))))
+            obs.append({"op": kind, "r": r, "deeper": deeper, "chain": chain_state(b, d),
+                        "cvs": [cond_value(spec, b, dd, x) for dd in range(d, len(b.handles))],
+                        "tol": tol_class(spec, b, d, x)})
         elif kind == "additive":
             g = op[3]
             r = guarded(lambda: float(coupler.additive(hd)(lambda x: dsl.ev(g, x))(list(op[2]))))
             pr = guarded(lambda: float(hd(list(op[2]))))
-            obs.append({"op": kind, "r": r, "p": pr, "g": dsl.ev(g, op[2])})
+            obs.append({"op": kind, "r": r, "p": pr, "g": dsl.ev(g, op[2]), "tol": tol_class(spec, b, d, list(op[2])), "deeper": []})
         elif kind == "error":
-            obs.append({"op": kind, "r": guarded(lambda: float(hd.error(list(op[2]))))})
-        elif kind == "iter":
-            before = state_of(handles)
-            r = guarded(lambda: hd.iter())
-            obs.append({"op": kind, "r": r, "before": before, "state": state_of(handles)})
-        elif kind == "iterI":
-            before = state_of(handles)
-            r = guarded(lambda: hd.iter(op[2]))
-            obs.append({"op": kind, "r": r, "before": before, "state": state_of(handles)})
-        elif kind == "clear":
-            before = state_of(handles)
-            r = guarded(lambda: hd.clear())
-            obs.append({"op": kind, "r": r, "before": before, "state": state_of(handles)})
-        elif kind == "store":
-            before = state_of(handles)
-            r = guarded(lambda: hd.store(list(op[2])))
-            obs.append({"op": kind, "r": r, "before": before, "state": state_of(handles)})
-        elif kind == "storeI":
-            before = state_of(handles)
-            r = guarded(lambda: hd.store(list(op[2]), op[3]))
-            obs.append({"op": kind, "r": r, "before": before, "state": state_of(handles)})
+            x = list(op[2])
+            lg, sm, jump = tol_class(spec, b, d, x)
+            obs.append({"op": kind, "r": guarded(lambda: float(hd.error(list(x)))),
+                        "cvs": [cond_value(spec, b, dd, x) for dd in range(d, len(b.handles))],
+                        "tol": (members_log(b, d), sm, jump)})
+        elif kind in ("iter", "iterI", "clear", "store", "storeI"):
+            before = state_of(root)
+            cvs = [cond_value(spec, b, dd, list(op[2])) for dd in range(d, len(b.handles))] if kind in ("store", "storeI") else None
+            if kind == "iter":
+                r = guarded(lambda: hd.iter())
+            elif kind == "iterI":
+                r = guarded(lambda: hd.iter(op[2]))
+            elif kind == "clear":
+                r = guarded(lambda: hd.clear())
+            elif kind == "store":
+                r = guarded(lambda: hd.store(list(op[2])))
+            else:
+                r = guarded(lambda: hd.store(list(op[2]), op[3]))
+            ab = all_built(root)
+            affected = [i for i, (bb, dd) in enumerate(ab) if bb is b and dd >= d]
+            obs.append({"op": kind, "r": r, "before": before, "state": state_of(root), "affected": affected, "cvs": cvs,
+                        "types": [bb.node["levels"][dd]["t"] for bb, dd in ab],
+                        "approx": [bb.node["levels"][dd]["cond"][0] != "leaf" or spec["leaves"][bb.node["levels"][dd]["cond"][1]][0] == "rnorm" for bb, dd in ab]})
         elif kind == "stored":
-            obs.append({"op": kind, "r": guarded(lambda: [float(v) for v in hd.stored()])})
+            obs.append({"op": kind, "r": guarded(lambda: [float(v) for v in hd.stored()]), "approx": b.node["levels"][d]["cond"][0] != "leaf"})
         elif kind == "storedI":
-            obs.append({"op": kind, "r": guarded(lambda: float(hd.stored(op[2])))})
+            obs.append({"op": kind, "r": guarded(lambda: float(hd.stored(op[2]))), "approx": b.node["levels"][d]["cond"][0] != "leaf"})
         elif kind == "iteration":
             obs.append({"op": kind, "r": guarded(lambda: hd.iteration())})
         else:
             raise AssertionError(op)
-    return handles, obs
+    return root, obs
 
 
 # ------------------------------------------------------------------ protocol
@@ -435,45 +721,53 @@ def numtok(v, mode):
     return str(int(v)) if mode == "int" else f2b(v)
 
 
-def cond_sexp(c):
-    if c[0] == "e":
-        return "(e %s)" % dsl.expr_sexp(c[1])
-    if c[0] == "rnorm":
-        return "(rnorm %s)" % dsl.con_sexp(c[1])
-    if c[0] in ("and", "or"):
-        return "(%s %s)" % (c[0], " ".join(stack_sexp(m) for m in c[1])) if c[1] else "(%s)" % c[0]
+def pc_sexp(c):
+    if c[0] == "leaf":
+        return "(leaf %d)" % c[1]
     if c[0] == "not":
-        return "(not %s %s)" % (c[1], cond_sexp(c[2]))
+        return "(not %s %s)" % (c[1], pc_sexp(c[2]["levels"][0]["cond"]))
+    if c[0] in ("and", "or"):
+        return "(%s%s)" % (c[0], "".join(" " + pt_sexp(m) for m in c[1]))
     raise AssertionError(c)
 
 
-def level_sexp(lv):
-    return "(%s %s %s %d %s %s)" % (lv["t"], numtok(lv["k"], lv["mode"]), numtok(lv["h"], lv["mode"]), lv["n"],
-                                    fl(lv["y"]), cond_sexp(lv["cond"]))
+def pt_sexp(node, d=0):
+    if d == len(node["levels"]):
+        return "(base %d)" % node["base"]
+    lv = node["levels"][d]
+    return "(pen (%s %s %s %d %s) %s %s)" % (lv["t"], numtok(lv["k"], lv["mode"]), numtok(lv["h"], lv["mode"]), lv["n"], fl(lv["y"]),
+                                           pc_sexp(lv["cond"]), pt_sexp(node, d + 1))
 
 
-def stack_sexp(ms):
-    return "(stack (%s) %s)" % (" ".join(level_sexp(l) for l in ms["levels"]), dsl.expr_sexp(ms["f"]))
+def leaf_sexp(leaf):
+    if leaf[0] == "e":
+        return "(e %s)" % dsl.expr_sexp(leaf[1])
+    return "(rnorm %s)" % dsl.con_sexp(leaf[1])
+
+
+def path_sexp(p):
+    return "(" + " ".join("d" if not is_m(s) else "(m %d)" % s[1] for s in p) + ")"
 
 
 def op_sexp(op):
-    k = op[0]
+    k = op[0]; p = path_sexp(op[1])
     if k in ("call", "error", "store"):
-        return "(%s %d %s)" % (k, op[1], fl(op[2]))
+        return "(%s %s %s)" % (k, p, fl(op[2]))
     if k == "additive":
-        return "(additive %d %s %s)" % (op[1], fl(op[2]), dsl.expr_sexp(op[3]))
+        return "(additive %s %s %s)" % (p, fl(op[2]), dsl.expr_sexp(op[3]))
     if k == "storeI":
-        return "(storeI %d %s %d)" % (op[1], fl(op[2]), op[3])
+        return "(storeI %s %s %d)" % (p, fl(op[2]), op[3])
     if k in ("iter", "clear", "stored", "iteration"):
-        return "(%s %d)" % (k, op[1])
+        return "(%s %s)" % (k, p)
     if k in ("iterI", "storedI"):
-        return "(%s %d %d)" % (k, op[1], op[2])
+        return "(%s %s %d)" % (k, p, op[2])
     raise AssertionError(op)
 
 
 def request_line(spec):
-    return "C15 run (levels (%s)) (f %s) (ops (%s))" % (" ".join(level_sexp(l) for l in spec["levels"]),
-                                                       dsl.expr_sexp(spec["f"]), " ".join(op_sexp(o) for o in spec["ops"]))
+    return "C15 tree (leaves (%s)) (fns (%s)) (t %s) (ops (%s))" % (
+        " ".join(leaf_sexp(l) for l in spec["leaves"]), " ".join(dsl.expr_sexp(tuple(e)) for e in spec["fns"]),
+        pt_sexp(spec["tree"]), " ".join(op_sexp(o) for o in spec["ops"]))
 
 
 def split_items(r):
@@ -489,53 +783,6 @@ def split_items(r):
 
 def model_state(it):
     return [(int(l[0]), [b2f(t) for t in l[1]]) for l in it[1:]]
-
-
-# ------------------------------------------------------------------ tolerance classes
-def involves_log(spec, j):
-    def st(levels):
-        for lv in levels:
-            if lv["t"] == "barrier":
-                return True
-            c = lv["cond"]
-            if c[0] in ("and", "or") and any(st(m["levels"]) for m in c[1]):
-                return True
-        return False
-    return st(spec["levels"][j:])
-
-
-def members_involve_log(spec, j):
-    """error(x) never calls log itself; it depends on it only through and_/or_ member penalties"""
-    for lv in spec["levels"][j:]:
-        c = lv["cond"]
-        if c[0] in ("and", "or") and any(involves_log(m, 0) for m in c[1]):
-            return True
-    return False
-
-
-def sum_inexact(spec, j, x):
-    """python's builtin `sum` is compensated: exact comparison only when every partial sum of the naive
-    left fold is exactly representable (then both summations return the exact sum)"""
-    for lv in spec["levels"][j:]:
-        c = lv["cond"]
-        if c[0] != "and":
-            continue
-        vals = []
-        for ms in c[1]:
-            hs, _ = build_stack(ms)
-            run_pre(hs, ms)
-            r = guarded(lambda: float(hs[0](list(x))))
-            if r[0] != "v":
-                return False
-            vals.append(r[1])
-        if any(not math.isfinite(v) for v in vals):
-            continue
-        acc = Fraction(0)
-        for v in vals:
-            acc += Fraction(v)
-            if Fraction(float(acc)) != acc:
-                return True
-    return False
 
 
 def close(a, b, scale):
@@ -564,6 +811,8 @@ def doc_amount(t, k, h, n, ys, c):
     if not all(math.isfinite(v) for v in (k, h, c)) or any(not math.isfinite(v) for v in ys):
         return None
     if h == 0 and n < 0:
+        return None
+    if abs(n) > 64:
         return None
     K = fr(k) * hpow(h, n)
     c_ = fr(c)
@@ -608,46 +857,6 @@ def doc_amount(t, k, h, n, ys, c):
     raise AssertionError(t)
 
 
-def member_values(ms_list, x):
-    vals = []
-    for ms in ms_list:
-        hs, _ = build_stack(ms)
-        run_pre(hs, ms)
-        r = guarded(lambda: float(hs[0](list(x))))
-        if r[0] != "v":
-            return None
-        vals.append(r[1])
-    return vals
-
-
-def cond_values(spec, j, x):
-    """per level j.. : float value of the condition at x (recomputed here, not taken from the penalty object),
-    'zd' if it raises ZeroDivisionError, None if unknown"""
-    out = []
-    for lv in spec["levels"][j:]:
-        c = lv["cond"]
-        try:
-            if c[0] == "e":
-                out.append(dsl.ev(c[1], x))
-            elif c[0] == "rnorm":
-                cx = dsl.con_apply(c[1], x)
-                out.append(math.sqrt(math.fsum((p - q) ** 2 for p, q in zip(cx, x))))
-            elif c[0] == "not":
-                v = dsl.ev(c[2][1], x)
-                out.append(float(not v) if c[1] in EQ else 0 - v)
-            elif c[0] in ("and", "or"):
-                vals = member_values(c[1], x)
-                if vals is None or any(v != v for v in vals) or (INF in vals and -INF in vals):
-                    out.append(None)
-                else:
-                    out.append(float(math.fsum(vals)) if c[0] == "and" else min(vals))
-            else:
-                out.append(None)
-        except ZeroDivisionError:
-            out.append("zd")
-    return out
-
-
 def near(a, b, scale):
     if a == b:
         return True
@@ -656,35 +865,69 @@ def near(a, b, scale):
     return abs(a - b) <= 1e-9 * max(abs(a), abs(b), scale) + 1e-290
 
 
+def view(spec, op):
+    """the levels of the object an op addresses (its own level first)"""
+    node = spec["tree"]; d = 0
+    for st in op[1]:
+        if is_m(st):
+            node = cond_members(node, d)[st[1]]; d = 0
+        else:
+            d += 1
+    return node["levels"][d:]
+
+
 def monitor_call(spec, op, ob, out, hist):
-    """property clauses on one evaluation p_j(x): per level zero-on-feasible / positive-on-violation /
-    documented amount / stacked sum / division by zero -> inf"""
-    j = op[1]; x = op[2]
+    """property clauses on one evaluation p(x) of the addressed object: per level zero-on-feasible /
+    positive-on-violation / documented amount / stacked sum / division by zero -> inf"""
+    x = op[2]
     if ob["r"][0] != "v":
         return
+    levels = view(spec, op)
     vals = [ob["r"][1]] + [d[1] if d[0] == "v" else None for d in ob["deeper"]]   # p_j, p_{j+1}, ..., f
-    cvs = cond_values(spec, j, x)
-    state = ob["state"]
-    for idx, lv in enumerate(spec["levels"][j:]):
+    cvs = ob["cvs"]
+    state = ob["chain"]
+    for idx, lv in enumerate(levels):
         outer = vals[idx]; inner = vals[idx + 1] if idx + 1 < len(vals) else None
         c = cvs[idx]
         t = lv["t"]; k = float(lv["k"]); h = float(lv["h"])
-        n, ys = state[j + idx]
+        n, ys = state[idx]
         if outer is None:
             break
         name = [nm for nm, tk in TYPES if tk == t][0]
+        how = lv["how"] if lv["how"] in ("and", "or", "not") else "plain"
         if c == "zd":
             hist["mon:zerodiv"] = hist.get("mon:zerodiv", 0) + 1
+            if how != "plain":
+                hist["mon:zerodiv:" + how] = hist.get("mon:zerodiv:" + how, 0) + 1
             if outer != INF:
-                out.append(("%s/div-zero-not-inf" % name, "condition raised ZeroDivisionError at x=%r but p(x)=%r (level %d)" % (x, outer, j + idx)))
+                out.append(("%s/div-zero-not-inf" % name, "condition raised ZeroDivisionError at x=%r but p(x)=%r (level %d of %r)" % (x, outer, idx, op[1])))
             break
         if c is None or inner is None or c != c or inner != inner:
             continue
-        kfin = math.isfinite(k) and math.isfinite(h) and not (h == 0 and n < 0)
+        hfin = math.isfinite(h) and not (h == 0 and n < 0)
+        sat = (c == 0) if t in EQ else (c <= 0)
+        if k == INF and hfin and h > 0 and abs(n) <= 64 and math.isfinite(c) and math.isfinite(inner):
+            # an infinite multiplier (the DEFAULT of the two uniform types): the uniform types add nothing where
+            # satisfied and +inf where violated; the quadratic / linear types add +inf where violated
+            hk = "mon:k-inf:%s:%s" % (t, "sat" if sat else "viol")
+            hist[hk] = hist.get(hk, 0) + 1
+            if t in CONFORMING and not sat and abs(c) > 1e-100 and outer != INF:
+                out.append(("%s/k-infinite/not-inf-on-violation" % name, "k=inf, condition value %r is violated but p(x)=%r (h=%r n=%d, x=%r)" % (c, outer, h, n, x)))
+            if t in ("uEq", "uIneq") and sat and outer != inner:
+                out.append(("%s/nonzero-on-feasible" % name, "k=inf, condition value %r is satisfied but p(x)=%r != decorated f(x)=%r (h=%r n=%d, x=%r)" % (c, outer, inner, h, n, x)))
+            if t in ("qEq", "lEq", "qIneq", "lIneq") and sat and not same_float(outer, inner):
+                out.append(("%s/nonzero-on-feasible/k-infinite" % name, "k=inf, condition value %r is satisfied but p(x)=%r != decorated f(x)=%r (h=%r n=%d, x=%r)" % (c, outer, inner, h, n, x)))
+            continue
+        kfin = math.isfinite(k) and hfin and abs(n) <= 64     # k*h**n over/underflows for huge |n|: as k = inf / 0
         if not kfin:
             hist["mon:k-or-h-not-finite"] = hist.get("mon:k-or-h-not-finite", 0) + 1
             continue
-        sat = (c == 0) if t in EQ else (c <= 0)
+        if c == INF and t in ("qEq", "lEq", "qIneq", "lIneq") and k > 0 and h > 0 and abs(n) <= 64 and (math.isfinite(inner) or inner == INF):
+            # an infinite condition value (a member penalty whose condition divided by zero) -> infinite penalty
+            hist["mon:inf-condition"] = hist.get("mon:inf-condition", 0) + 1
+            if outer != INF:
+                out.append(("%s/infinite-condition-not-inf" % name, "condition value is inf (a member divided by zero) but p(x)=%r (k=%r h=%r n=%d, x=%r)" % (outer, k, h, n, x)))
+            continue
         da = doc_amount(t, k, h, n, ys, c)
         amt, mag = da if da is not None else (None, 0)
         stored_fin = all(math.isfinite(v) for v in ys)
@@ -692,6 +935,11 @@ def monitor_call(spec, op, ob, out, hist):
                     abs(float(amt)) if (amt is not None and math.isfinite(float(amt))) else 0.0)
         hk = "mon:%s:%s" % (t, "sat" if sat else "viol")
         hist[hk] = hist.get(hk, 0) + 1
+        if how != "plain":
+            hist["mon:" + how] = hist.get("mon:" + how, 0) + 1
+        if k < 0 or (0 < h < 1) or h == 1 or n < 0 or n > 5:
+            hkk = "mon:regime:" + ("k<0" if k < 0 else "h<1" if 0 < h < 1 else "h=1" if h == 1 else "n<0" if n < 0 else "n>5")
+            hist[hkk] = hist.get(hkk, 0) + 1
         # (1) no added penalty where satisfied  (checked for ALL nine types: the non-conforming ones are known findings)
         if sat and math.isfinite(inner) and stored_fin and outer != inner:
             key = "%s/nonzero-on-feasible" % name
@@ -718,40 +966,52 @@ def monitor_call(spec, op, ob, out, hist):
                 ok = near(outer, float(Fraction(inner) + Fraction(amt)), scale)
             hist["mon:formula"] = hist.get("mon:formula", 0) + 1
             if not ok:
-                out.append(("%s/formula" % name, "p(x)=%r but decorated f(x)=%r + documented amount %r (condition %r, k=%r h=%r n=%d stored=%r, x=%r)" % (outer, inner, a, c, k, h, n, ys, x)))
+                key = "%s/formula" % name
+                if how != "plain":
+                    key = "coupler.%s_/%s" % (how, key)
+                out.append((key, "p(x)=%r but decorated f(x)=%r + documented amount %r (condition %r, k=%r h=%r n=%d stored=%r, x=%r)" % (outer, inner, a, c, k, h, n, ys, x)))
     # a condition dividing by zero anywhere in the stack yields an infinite penalty (finite levels outside it)
     if "zd" in cvs:
         z = cvs.index("zd")
         fine = True
         for idx in range(z):
-            lv = spec["levels"][j + idx]; n, ys = state[j + idx]; c = cvs[idx]
+            lv = levels[idx]; n, ys = state[idx]; c = cvs[idx]
             if c is None or not isinstance(c, float) or not math.isfinite(c):
                 fine = False
-            elif doc_amount(lv["t"], float(lv["k"]), float(lv["h"]), n, ys, c) is None:
-                fine = False
+            else:
+                da = doc_amount(lv["t"], float(lv["k"]), float(lv["h"]), n, ys, c)
+                if da is None or float(da[0]) == -INF:     # -inf + inf = nan: the levels outside must add a finite amount or +inf
+                    fine = False
         if fine and vals[0] != INF:
-            out.append(("stack/div-zero-not-inf", "the condition of level %d raised ZeroDivisionError at x=%r but p(x)=%r" % (j + z, x, vals[0])))
+            out.append(("stack/div-zero-not-inf", "the condition of level %d raised ZeroDivisionError at x=%r but p(x)=%r" % (z, x, vals[0])))
 
 
 def monitor_error(spec, op, ob, out, hist):
-    j = op[1]; x = op[2]
+    x = op[2]
     if ob["r"][0] != "v":
         out.append(("error/raises", "error(x) raised %r at x=%r" % (ob["r"][1], x)))
         return
-    cvs = cond_values(spec, j, x)
+    levels = view(spec, op)
+    cvs = ob["cvs"]
     if any(c is None or (c != "zd" and c != c) for c in cvs):
         return
     got = ob["r"][1]
-    if "zd" in cvs:
+    zd = [i for i, c in enumerate(cvs) if c == "zd"]
+    if zd:
+        # the outermost raising level returns inf; levels outside it add their squares to it
+        if any(not math.isfinite(c) for c in cvs[:zd[0]]):
+            return
         want = INF
     else:
         acc = Fraction(0)
-        for lv, c in zip(spec["levels"][j:], cvs):
+        for lv, c in zip(levels, cvs):
             if not math.isfinite(c):
                 acc = None; break
             v = Fraction(c) if lv["t"] in EQ else max(Fraction(0), Fraction(c))
             acc += v * v
         if acc is None:
+            return
+        if acc > Fraction(10) ** 300:
             return
         want = math.sqrt(acc)
     hist["mon:error"] = hist.get("mon:error", 0) + 1
@@ -760,47 +1020,53 @@ def monitor_error(spec, op, ob, out, hist):
 
 
 def monitor_state(spec, op, ob, out, hist):
-    """iter / clear / store : exactly the documented state change at levels >= j, nothing else anywhere"""
-    kind = op[0]; j = op[1]
+    """iter / clear / store : exactly the documented state change at the addressed object and the objects it
+    decorates; NOTHING else anywhere in the tree (outer levels, member penalties of any condition, the objects a
+    member penalty is combined into)"""
+    kind = op[0]
     before, after = ob["before"], ob["state"]
     if ob["r"][0] != "v":
         # `_y[i] = y` with i < -len(_y) (explicit i, or the default i = iteration() after iter(negative)) is an IndexError
         if not (kind in ("store", "storeI") and ob["r"][1] == "index"):
             out.append(("%s/raises" % kind, "%s raised %r" % (kind, ob["r"][1])))
         return
+    aff = set(ob["affected"])
     for idx, ((n0, y0), (n1, y1)) in enumerate(zip(before, after)):
-        if idx < j:
+        if idx not in aff:
             if n0 != n1 or not same_vec(y0, y1):
-                out.append(("%s/touches-outer-level" % kind, "%s on handle %d changed level %d: %r -> %r" % (kind, j, idx, (n0, y0), (n1, y1))))
+                out.append(("%s/touches-other-object" % kind, "%s on %r changed level #%d of the tree, which it does not decorate: %r -> %r" % (kind, op[1], idx, (n0, y0), (n1, y1))))
             continue
-        t = spec["levels"][idx]["t"]
+        t = ob["types"][idx]
         if kind == "iter":
             if n1 != n0 + 1 or not same_vec(y0, y1):
-                out.append(("iter/not-advanced", "iter() on handle %d: level %d %r -> %r" % (j, idx, (n0, y0), (n1, y1))))
+                out.append(("iter/not-advanced", "iter() on %r: level #%d %r -> %r" % (op[1], idx, (n0, y0), (n1, y1))))
         elif kind == "iterI":
             if n1 != op[2] or not same_vec(y0, y1):
-                out.append(("iter/not-set", "iter(%d) on handle %d: level %d %r -> %r" % (op[2], j, idx, (n0, y0), (n1, y1))))
+                out.append(("iter/not-set", "iter(%d) on %r: level #%d %r -> %r" % (op[2], op[1], idx, (n0, y0), (n1, y1))))
         elif kind == "clear":
             if n1 != 0 or y1 != []:
-                out.append(("clear/not-reset", "clear() on handle %d: level %d %r -> %r" % (j, idx, (n0, y0), (n1, y1))))
+                out.append(("clear/not-reset", "clear() on %r: level #%d %r -> %r" % (op[1], idx, (n0, y0), (n1, y1))))
         elif kind in ("store", "storeI"):
             if n1 != n0:
-                out.append(("store/touches-iteration", "store on handle %d changed the iteration of level %d" % (j, idx)))
+                out.append(("store/touches-iteration", "store on %r changed the iteration of level #%d" % (op[1], idx)))
             if t not in LAG and not same_vec(y0, y1):
-                out.append(("store/non-lagrange-stores", "store on handle %d changed stored() of the %s level %d" % (j, t, idx)))
+                out.append(("store/non-lagrange-stores", "store on %r changed stored() of the %s level #%d" % (op[1], t, idx)))
     hist["mon:state"] = hist.get("mon:state", 0) + 1
+    if len(before) > len(aff):
+        hist["mon:state:frame-levels"] = hist.get("mon:state:frame-levels", 0) + len(before) - len(aff)
 
 
 def monitor_store_value(spec, op, ob, out, hist):
-    """store(x[, i]) at a Lagrange level records the condition value at index i (default: its iteration)"""
+    """store(x[, i]) at a Lagrange level records the condition value at index i (default: its iteration) and leaves
+    every other stored value alone (a gap is filled with zeros)"""
     if ob["r"][0] != "v":
         return
-    j = op[1]; x = op[2]
-    cvs = cond_values(spec, j, x)
+    x = op[2]
+    cvs = ob["cvs"]
     i = op[3] if op[0] == "storeI" else None
-    for idx, lv in enumerate(spec["levels"][j:]):
-        n0, y0 = ob["before"][j + idx]; n1, y1 = ob["state"][j + idx]
-        if lv["t"] in LAG:
+    for idx, gi in enumerate(sorted(ob["affected"])):
+        n0, y0 = ob["before"][gi]; n1, y1 = ob["state"][gi]
+        if ob["types"][gi] in LAG:
             if i is None:
                 i = n0
             c = cvs[idx]
@@ -809,9 +1075,14 @@ def monitor_store_value(spec, op, ob, out, hist):
             want = INF if c == "zd" else c
             pos = i if i >= 0 else len(y0) + i
             # conditions built by as_penalty / and_ / or_ are recomputed here with fsum / sqrt: equal up to rounding only
-            approx = lv["cond"][0] in ("rnorm", "and", "or")
+            approx = ob["approx"][gi]
             if pos < 0 or pos >= len(y1) or not (near(y1[pos], want, 0.0) if approx else same_float(y1[pos], want)):
-                out.append(("store/value", "store(x, %r) at level %d: stored()=%r, expected %r at index %d" % (i, j + idx, y1, want, pos)))
+                out.append(("store/value", "store(x, %r) at level #%d: stored()=%r, expected %r at index %d" % (i, gi, y1, want, pos)))
+            else:
+                rest_ok = len(y1) == max(len(y0), pos + 1) and all(
+                    same_float(y1[q], y0[q] if q < len(y0) else 0.0) for q in range(len(y1)) if q != pos)
+                if not rest_ok:
+                    out.append(("store/other-entries", "store(x, %r) at level #%d: stored() %r -> %r" % (i, gi, y0, y1)))
             hist["mon:store"] = hist.get("mon:store", 0) + 1
 
 
@@ -834,9 +1105,63 @@ def monitor_clear_fresh(spec, k_op, out, hist):
     hist["mon:clear-fresh"] = hist.get("mon:clear-fresh", 0) + 1
 
 
+def monitor_cycles(spec, obs, out, hist):
+    """the multiplier state machine: after the cycles `store(x_0); iter(); ...; store(x_{m-1}); iter()` on a fresh
+    Lagrange penalty the iteration is m and stored() is exactly [c(x_0), ..., c(x_{m-1})] (overwrites by store(x, i)
+    replace entry i), and the accumulated multiplier follows lam_{i+1} = lam_i + 2*k*h^i*c_i  (equality) /
+    beta_{i+1} = max(0, beta_i + 2*k*h^i*c_i) (inequality, k, h > 0): checked through the evaluations by `formula`"""
+    lv0 = spec["tree"]["levels"][0]
+    if lv0["t"] not in LAG:
+        return
+    want = []; n = 0
+    for op, ob in zip(spec["ops"], obs):
+        if ob["r"][0] != "v":
+            return
+        if op[0] == "clear":
+            want = []; n = 0
+        elif op[0] in ("store", "storeI"):
+            c = ob["cvs"][0]
+            if c is None:
+                return
+            c = INF if c == "zd" else c
+            i = n if op[0] == "store" else op[3]
+            if i >= len(want):
+                want = want + [0.0] * (i - len(want)) + [c]
+            else:
+                want[i] = c
+        elif op[0] == "iter":
+            n += 1
+        if "state" in ob:
+            n1, y1 = ob["state"][0]
+            hist["mon:cycle"] = hist.get("mon:cycle", 0) + 1
+            if n1 != n or not same_vec(y1, want):
+                out.append(("lagrange/cycle-state", "after %d ops of the store/iter cycle: iteration()=%r stored()=%r, expected %r %r" % (len(want), n1, y1, n, want)))
+                return
+        if op[0] == "call" and n > 0 and ob["r"][0] == "v" and lv0["k"] > 0 and lv0["h"] > 0 and math.isfinite(lv0["k"]) and math.isfinite(lv0["h"]):
+            # independent recurrence for the multiplier, compared through p(x) = K*m^2 + mult*m + f(x)
+            c = ob["cvs"][0]; inner = ob["deeper"][0]
+            if c in (None, "zd") or inner[0] != "v" or not math.isfinite(c) or not math.isfinite(inner[1]) or any(not math.isfinite(v) for v in want):
+                continue
+            k = Fraction(lv0["k"]); h = Fraction(lv0["h"]); mult = Fraction(0); B = Fraction(0)
+            for i in range(n):
+                ci = Fraction(want[i]) if i < len(want) else Fraction(0)
+                step = 2 * k * h ** i * ci
+                mult = mult + step if lv0["t"] == "lagEq" else max(Fraction(0), mult + step)
+                B = max(B, abs(mult), abs(step))
+            K = k * h ** n
+            m = Fraction(c) if lv0["t"] == "lagEq" else max(-mult / (2 * K), Fraction(c))
+            amt = K * m * m + mult * m
+            scale = float(abs(K * m * m) + B * abs(m) + B * B / K + B * abs(m)) + abs(inner[1])
+            hist["mon:cycle-multiplier"] = hist.get("mon:cycle-multiplier", 0) + 1
+            if not near(ob["r"][1], float(Fraction(inner[1]) + amt), scale):
+                out.append(("lagrange/multiplier-recurrence", "cycle %d: p(x)=%r, expected f(x) + K*m^2 + mult*m = %r (mult=%r, K=%r, c=%r)" % (n, ob["r"][1], float(Fraction(inner[1]) + amt), float(mult), float(K), c)))
+                return
+
+
 def monitor(spec, obs, hist):
     out = []
     cleared = False
+    member_mut = False
     for k_op, (op, ob) in enumerate(zip(spec["ops"], obs)):
         kind = op[0]
         if ob["r"][0] == "raise" and ob["r"][1] == "overflow":
@@ -852,13 +1177,17 @@ def monitor(spec, obs, hist):
             monitor_state(spec, op, ob, out, hist)
             if kind in ("store", "storeI"):
                 monitor_store_value(spec, op, ob, out, hist)
-            if kind == "clear" and op[1] == 0 and not cleared and ob["r"][0] == "v":
+            if any(is_m(st) for st in op[1]):
+                member_mut = True      # a member penalty now differs from a freshly built one
+            if kind == "clear" and op[1] == [] and not cleared and not member_mut and ob["r"][0] == "v":
                 cleared = True
                 monitor_clear_fresh(spec, k_op, out, hist)
         elif kind == "additive":
             r, p = ob["r"], ob["p"]
             if r[0] == "v" and p[0] == "v" and not same_float(r[1], ob["g"] + p[1]):
                 out.append(("coupler/additive", "additive(p)(f)(x)=%r but f(x)+p(x)=%r" % (r[1], ob["g"] + p[1])))
+    if spec["kind"] == "lagcycle":
+        monitor_cycles(spec, obs, out, hist)
     return out
 
 
@@ -876,27 +1205,26 @@ def run_driver(lines):
 
 # ------------------------------------------------------------------ one case
 def run_case(spec, hist):
-    """returns (findings, nontrivial, request line, reply, obs)"""
-    findings = []
+    """returns (request line, observations, monitor findings)"""
     with warnings.catch_warnings():
         warnings.simplefilter("ignore")
         import numpy as np
         with np.errstate(all="ignore"):
-            handles, obs = run_impl(spec)
-            line = request_line(spec)          # after run_impl: member set-up state has been written into the spec
+            root, obs = run_impl(spec)
+            line = request_line(spec)
             mon = monitor(spec, obs, hist)
     return line, obs, mon
 
 
-def same_state(spec, ms, st):
-    """(iteration, stored) of every level; stored values of a level whose condition is an and_/or_ combination are
-    python sum()/numpy log results (toleranced), all others are bit-exact copies of the condition value"""
+def same_state(ob, ms, st):
+    """(iteration, stored) of every level of the tree; stored values of a level whose condition is an and_/or_/not_
+    combination are python sum()/numpy log results (toleranced), all others are bit-exact copies of the condition value"""
     if len(ms) != len(st) or [s[0] for s in ms] != [s[0] for s in st]:
         return False
-    for lv, a, b in zip(spec["levels"], ms, st):
+    for approx, a, b in zip(ob["approx"], ms, st):
         if same_vec(a[1], b[1]):
             continue
-        if lv["cond"][0] in ("and", "or") and len(a[1]) == len(b[1]) and all(close(p, q, 0.0) for p, q in zip(a[1], b[1])):
+        if approx and len(a[1]) == len(b[1]) and all(close(p, q, 0.0) for p, q in zip(a[1], b[1])):
             continue
         return False
     return True
@@ -925,7 +1253,9 @@ def compare(spec, obs, rep, hist):
     for k_op, (op, ob, it) in enumerate(zip(spec["ops"], obs, items)):
         kind = op[0]
         ir = ob["r"]
-        tag = "op %d %s@%d" % (k_op, kind, op[1])
+        tag = "op %d %s@%r" % (k_op, kind, op[1])
+        if any(is_m(st) for st in op[1]):
+            hist["cmp:member-object"] = hist.get("cmp:member-object", 0) + 1
         if ir[0] == "raise" and ir[1] == "overflow":
             hist["skipped:OverflowError"] = hist.get("skipped:OverflowError", 0) + 1
             continue
@@ -934,27 +1264,26 @@ def compare(spec, obs, rep, hist):
                 diffs.append("%s: impl raised %s, model %r" % (tag, ir[1], it[:2]))
             elif len(it) > 2 and "state" in ob:
                 ms = model_state(it[2])
-                if not same_state(spec, ms, ob["state"]):
+                if not same_state(ob, ms, ob["state"]):
                     diffs.append("%s: state after IndexError model=%r impl=%r" % (tag, ms, ob["state"]))
             hist["raise:" + str(ir[1]).split(":")[0]] = hist.get("raise:" + str(ir[1]).split(":")[0], 0) + 1
             continue
         if it[0] == "raise":
             diffs.append("%s: model raised %s, impl returned %r" % (tag, it[1], ir[1]))
             continue
-        if kind in ("call", "additive", "error", "storedI"):
+        if kind in ("call", "additive", "error"):
             mv = b2f(it[1])
             iv = ir[1]
+            lg, sm, jump = ob["tol"]
             exact = True
-            if kind in ("call", "additive"):
-                if involves_log(spec, op[1]):
-                    exact = False; hist["tol:log"] = hist.get("tol:log", 0) + 1
-                elif spec["kind"] == "and" and sum_inexact(spec, op[1], op[2]):
-                    exact = False; hist["tol:sum"] = hist.get("tol:sum", 0) + 1
-            elif kind == "error":
-                if members_involve_log(spec, op[1]):
-                    exact = False; hist["tol:log"] = hist.get("tol:log", 0) + 1
-                elif spec["kind"] == "and" and sum_inexact(spec, op[1], op[2]):
-                    exact = False; hist["tol:sum"] = hist.get("tol:sum", 0) + 1
+            if lg:
+                exact = False; hist["tol:log"] = hist.get("tol:log", 0) + 1
+            elif sm:
+                exact = False; hist["tol:sum"] = hist.get("tol:sum", 0) + 1
+            if not exact and jump:
+                # a last-bit difference in a sum / log may select the other branch of a uniform type / logical not
+                hist["skipped:rounding-before-branch"] = hist.get("skipped:rounding-before-branch", 0) + 1
+                continue
             scale = max([abs(d[1]) for d in ob.get("deeper", []) if d[0] == "v" and math.isfinite(d[1])] + [0.0])
             if exact:
                 # expected bit-identical (and is, on the pinned tree).  A difference below 1e-9 relative is what a
@@ -969,13 +1298,17 @@ def compare(spec, obs, rep, hist):
             else:
                 if not close(mv, iv, scale):
                     diffs.append("%s: value model=%r impl=%r (toleranced stream)" % (tag, mv, iv))
+        elif kind == "storedI":
+            mv = b2f(it[1])
+            if not (same_float(mv, ir[1]) or (ob["approx"] and close(mv, ir[1], 0.0))):
+                diffs.append("%s: stored(i) model=%r impl=%r" % (tag, mv, ir[1]))
         elif kind in ("iter", "iterI", "clear", "store", "storeI"):
             ms = model_state(it)
-            if not same_state(spec, ms, ob["state"]):
+            if not same_state(ob, ms, ob["state"]):
                 diffs.append("%s: state model=%r impl=%r" % (tag, ms, ob["state"]))
         elif kind == "stored":
             mys = [b2f(t) for t in it[1]]
-            if not (same_vec(mys, ir[1]) or (spec["levels"][op[1]]["cond"][0] in ("and", "or") and len(mys) == len(ir[1])
+            if not (same_vec(mys, ir[1]) or (ob["approx"] and len(mys) == len(ir[1])
                                              and all(close(p, q, 0.0) for p, q in zip(mys, ir[1])))):
                 diffs.append("%s: stored() model=%r impl=%r" % (tag, [b2f(t) for t in it[1]], ir[1]))
         elif kind == "iteration":
@@ -984,16 +1317,28 @@ def compare(spec, obs, rep, hist):
     return diffs
 
 
+def tree_depth(node):
+    return 1 + max([0] + [tree_depth(m) for d in range(len(node["levels"])) for m in cond_members(node, d)])
+
+
 def case_hist(spec, obs, hist):
     def bump(k):
         hist[k] = hist.get(k, 0) + 1
-    bump("kind:" + spec["kind"]); bump("depth:%d" % len(spec["levels"]))
-    for lv in spec["levels"]:
+    bump("kind:" + spec["kind"]); bump("depth:%d" % len(spec["tree"]["levels"])); bump("nesting:%d" % tree_depth(spec["tree"]))
+    for lv in all_levels(spec["tree"]):
         bump("type:" + lv["t"]); bump("kh:" + lv["mode"])
+        if lv["how"] != "plain":
+            bump("how:" + lv["how"])
+        if lv["cond"][0] == "not" and lv["cond"][2]["levels"][0]["cond"][0] != "leaf":
+            bump("not-of-combination")
     for op, ob in zip(spec["ops"], obs):
         bump("op:" + op[0])
+        if any(is_m(st) for st in op[1]):
+            bump("op-on-member:" + op[0])
         if op[0] in ("iterI",) and op[2] < 0:
             bump("iter:negative")
+        if op[0] in ("iterI",) and op[2] > 5:
+            bump("iter:large")
         if op[0] == "storeI":
             bump("storeI:" + ("neg" if op[3] < 0 else "nonneg"))
     evals = [(op, ob) for op, ob in zip(spec["ops"], obs) if op[0] == "call" and ob["r"][0] == "v"]
@@ -1024,7 +1369,7 @@ def unjson(o):
 
 def jcase(spec, line, obs, rep, ident):
     return {"ident": ident, "kind": spec["kind"], "spec": spec, "request": line, "model": rep,
-            "impl": [{"op": list(op[:2]) + [repr(v) for v in op[2:]], "r": ob["r"], "state": ob.get("state")} for op, ob in zip(spec["ops"], obs)]}
+            "impl": [{"op": [op[0], repr(op[1])] + [repr(v) for v in op[2:]], "r": ob["r"], "state": ob.get("state")} for op, ob in zip(spec["ops"], obs)]}
 
 
 def run_shard(pid, seed, shard, ncases, tier, extra):
@@ -1065,15 +1410,23 @@ def run_shard(pid, seed, shard, ncases, tier, extra):
 # ------------------------------------------------------------------ known-finding witnesses (run first, deterministic)
 def witness_specs():
     lin = ("-", ("x", 0), ("c", 0.0))     # condition c(x) = x[0]
-    mk = lambda t, k, h, ops: {"levels": [{"t": t, "k": k, "h": h, "mode": "float", "n": 0, "y": [], "cond": ("e", lin), "target": (0, 0.0)}],
-                               "f": ("c", 1.0), "kind": "plain", "dim": 1, "exact": False, "ops": ops}
+
+    def mk(t, k, h, ops):
+        return {"kind": "plain", "dim": 1, "exact": False, "leaves": [("e", lin, (0, 0.0))], "fns": [("c", 1.0)],
+                "tree": {"levels": [{"t": t, "k": k, "h": h, "mode": "float", "n": 0, "y": [], "how": "plain", "cond": ("leaf", 0)}], "base": 0},
+                "ops": ops}
     return [
         # barrier_inequality: c = -0.5 is satisfied, yet -log(0.5)/(2*100) is added; c = 0 gives inf
-        mk("barrier", 100.0, 5.0, [("call", 0, [-0.5]), ("call", 0, [0.0])]),
+        mk("barrier", 100.0, 5.0, [("call", [], [-0.5]), ("call", [], [0.0])]),
         # lagrange_inequality after store(c=1) and iter(): beta = 40; c = -0.1 is satisfied, a negative amount is added
-        mk("lagIneq", 20.0, 5.0, [("store", 0, [1.0]), ("iter", 0), ("call", 0, [-0.125])]),
+        mk("lagIneq", 20.0, 5.0, [("store", [], [1.0]), ("iter", []), ("call", [], [-0.125])]),
         # lagrange_equality after store(c=1) and iter(): lam = 40, K = 100; c = -0.125 is violated, 100/64 - 5 < 0 is added
-        mk("lagEq", 20.0, 5.0, [("store", 0, [1.0]), ("iter", 0), ("call", 0, [-0.125])]),
+        mk("lagEq", 20.0, 5.0, [("store", [], [1.0]), ("iter", []), ("call", [], [-0.125])]),
+        # an infinite multiplier with a quadratic / linear type: inf * 0 = nan on the feasible set
+        mk("qEq", INF, 5.0, [("call", [], [0.0]), ("call", [], [0.5])]),
+        mk("lEq", INF, 5.0, [("call", [], [0.0])]),
+        mk("qIneq", INF, 5.0, [("call", [], [-1.0])]),
+        mk("lIneq", INF, 5.0, [("call", [], [-1.0])]),
     ]
 
 
@@ -1097,28 +1450,30 @@ def witnesses():
 def main(tier, seed):
     t0 = time.time()
     proof = framework.proof_stage(PID, MODULE, THEOREMS, tier)
-    nshards, per = (16, 1500) if tier == "quick" else (64, 10000)
+    nshards, per = (16, 1500) if tier == "quick" else (64, 8000)
     run = framework.run_shards("c15", "run_shard", PID, seed, nshards, per, tier)
     run["findings"] = witnesses() + run["findings"]
 
     def search_more():
         r = framework.run_shards("c15", "run_shard", PID, seed + 7919, 32, 600, tier)
         return r["findings"]
-    rule = ("cases: a penalty stack of depth 1-4 over the nine mystic.penalty types (k, h in {0, 1e-3, .5, 1, 2, 20, 100, inf, random}, python ints "
-            "or floats), conditions from the DSL (linear with exact/one-ulp boundary points, products, squares, zero-dividing quotients), the "
-            "innermost level optionally built by with_penalty / as_penalty / coupler.and_ / or_ / not_ (members with their own iteration and stored "
-            "state), driven by 5-13 operations p(x), error(x), iter(), iter(i) (i<0 too), store(x[,i]) (negative and out-of-range i), stored([i]), "
-            "clear(), iteration(), additive on the handle of any level. non-trivial = some evaluation follows a state change (iter/store/clear) "
-            "and some evaluation added a non-zero amount. `evaluations` counts cases, `model_lines_compared` operations")
+    rule = ("cases: a penalty TREE: a chain of 1-4 levels over the nine mystic.penalty types (k, h in {-100, -1, 0, 1e-3, .25, .5, 1, 2, 20, 100, inf, "
+            "random}, python ints or floats), conditions from the DSL (linear with exact/one-ulp boundary points, products, squares, "
+            "zero-dividing quotients), the innermost level optionally built by with_penalty / as_penalty / coupler.and_ / or_ / not_ whose members "
+            "are again such objects (nesting to depth 3, not_ of and_/or_/not_), driven by 5-16 operations p(x), error(x), iter(), iter(i) "
+            "(i<0, i up to 1100), store(x[,i]) (negative and out-of-range i), stored([i]), clear(), iteration(), additive on ANY object of the "
+            "tree (outer level, decorated level, live member penalty of a combination); kind lagcycle = the store/iter outer loop of the "
+            "augmented Lagrangian for 2-7 cycles. non-trivial = some evaluation follows a state change (iter/store/clear) and some evaluation "
+            "added a non-zero amount. `evaluations` counts cases, `model_lines_compared` operations")
     tb = ["Lean 4.33 kernel; Mathlib ordered-field lemmas; axioms per theorem listed under coverage.theorems",
-          "hand-written model Model/Penalty.lean tied to mystic/penalty.py, coupler.py, constraints.with_penalty/as_penalty by this differential run only",
+          "hand-written models Model/Penalty.lean + Model/PenaltyTree.lean tied to mystic/penalty.py, coupler.py, constraints.with_penalty/as_penalty by this differential run only",
           "theorem hypotheses on the scalar operations (x**2 = x*x, pow(h,n) = h^n, x**0.5 = the non-negative root, abs) are idealisations of the C library calls the driver uses at Float",
-          "DSL twins harness/dsl.py and Model/Dsl.lean; condition plumbing (and/or/not/rnorm) in Drv/C15.lean is outside the theorems",
-          "barrier_inequality's log and inexact python sum() inside coupler.and_ are compared with relative tolerance 1e-9 (counted in the histogram as tol:log / tol:sum)"]
+          "DSL twins harness/dsl.py and Model/Dsl.lean evaluate the user's callables (leaves); everything between them and p(x) is model code under theorems",
+          "barrier_inequality's log and inexact python sum() inside coupler.and_ are compared with relative tolerance 1e-9 (counted in the histogram as tol:log / tol:sum); where such a value feeds a discontinuous type / logical not the comparison is skipped (skipped:rounding-before-branch)"]
     assumptions = ["conditions and the decorated function are deterministic and return python floats (a numpy scalar stored as a lagrange_inequality multiplier turns ZeroDivisionError into a silent inf/nan); no NaN in the monitor's clauses",
-                   "OverflowError (|c| > 1e154 or h**n overflowing) is outside the model and never generated",
+                   "OverflowError (|c| > 1e154 or h**n overflowing) is outside the model: such operations are skipped and counted",
                    "Lean Float.pow and CPython float.__pow__ call the same libm pow (checked on 300000 inputs: 0 differences)",
-                   "zero-on-feasible / positivity are monitored for finite k, h only (inf*0 = nan is outside the ordered-field statement)"]
+                   "coupler.or_ of no penalties (python ValueError at evaluation) is not represented"]
     return framework.finish(PID, tier, seed, t0, proof, run, rule, tb, assumptions, search_more=search_more)
 
 
